@@ -69,6 +69,7 @@ Section QueryReach.
     qvalues_ok values -> Inv d -> reach d (sdb (insert_nodes rv d count values als ids)).
   Proof.
     intros Hv Hd. unfold insert_nodes.
+    destruct (fix_empty_alias rv && existsb _ als); cbn [sdb]; [apply rrefl|].
     destruct (resolve_ids rv d ids) as [query_ids|e|] eqn:Er; cbn [sdb]; try apply rrefl.
     set (vals_list := match values with
                       | Single v => repeat v (Nat.max (length query_ids) (Z.to_nat (Z.max count (lenZ als))))
@@ -169,7 +170,7 @@ Section QueryReach.
   (* ---------- insert values ---------- *)
   Lemma insert_values_q_reach d0 a acc q kvs :
     Inv a -> keys_distinct kvs -> reach d0 a ->
-    Inv (sdb (insert_values_q a acc q kvs)) /\ reach d0 (sdb (insert_values_q a acc q kvs)).
+    Inv (sdb (insert_values_q rv a acc q kvs)) /\ reach d0 (sdb (insert_values_q rv a acc q kvs)).
   Proof.
     intros Ha Hk Hr. unfold insert_values_q. destruct (db_id a q) as [id|e] eqn:Ei.
     - unfold insert_values_id. cbn [sdb]. apply replace_step; [exact Ha| |exact Hr].
@@ -178,7 +179,8 @@ Section QueryReach.
       + destruct (id =? 0); cbn [sdb]; [|split; assumption].
         pose proof (new_step d0 a acc None kvs Ha Hk I Hr) as H.
         destruct (insert_values_new a acc None kvs) as [d1 r]. cbn [sdb fst] in *. exact H.
-      + pose proof (new_step d0 a acc (Some al) kvs Ha Hk (db_id_alias_none a al e Ei) Hr) as H.
+      + destruct (fix_empty_alias rv && _); cbn [sdb]; [split; assumption|].
+        pose proof (new_step d0 a acc (Some al) kvs Ha Hk (db_id_alias_none a al e Ei) Hr) as H.
         destruct (insert_values_new a acc (Some al) kvs) as [d1 r]. cbn [sdb fst] in *. exact H.
   Qed.
 
